@@ -412,6 +412,7 @@ pub fn c01(tier: &str) -> i32 {
         &crate::absx::ClosureCfg { label: "C01: core actions + create/place", max_rest: if t { 4 } else { 3 }, max_vol: if t { 3 } else { 2 }, modify: false, toggles: false, create: true, redundant: false, ties: false, prices: 3, reload_depth: 0, suffix_k: 0 },
         t,
     );
+    crate::bulk::long_queues(&mut out, false, t);
     // re-pricing / re-sizing modifies among the actions, and the classes of the last two operations
     // in the key (a book entered by a modification is expanded separately)
     crate::absx::run_closure(
@@ -518,6 +519,7 @@ pub fn c02(tier: &str) -> i32 {
         &["op-with-trades", "state-crossed", "op:reload", "modify-requeue"],
         if t { 3000 } else { 50 },
     );
+    crate::bulk::periodic_staleness(&mut out, t);
     // unbounded depth: closure over abstract book states (the reference engine only supplies the
     // state identity; the oracle stays the model-free recomputation from get_orders()), with
     // snapshot reloads among the actions and the class of the last operation in the key
@@ -1041,6 +1043,7 @@ pub fn c05_book(out: &mut Outcome, t: bool) {
         &["state-with-tie", "dt0", "op-with-trades", "three-queued-at-one-price"],
         if t { 3000 } else { 40 },
     );
+    crate::bulk::long_queues(out, true, t);
     // unbounded-depth closure with the clock advance {0,+1} as part of every action
     let mon2 = Monitors { reference: true, drain: true, views: true, ledger: true, life: true, ..Default::default() };
     crate::absx::run_closure(
